@@ -551,17 +551,26 @@ func (e *Engine) callByContract(st *State, fn *ssa.Function, ct *Contract, args 
 			envR.vars[l.Name] = envR.eval(l.Node)
 		}
 	}
-	for _, rq := range ct.Requires {
+	for ri, rq := range ct.Requires {
 		g := envR.term(rq.Node)
 		if envR.err != nil {
 			st.incomplete = "callee precondition does not evaluate at " + pos + ": " + envR.err.Error()
 			e.endPath(st)
 			return
 		}
+		// obligation id: stable under edits that move lines (the callee's clause + the caller under verification)
 		cl := rq
-		cl.Name = ct.Short + ".requires@" + fmt.Sprint(rq.Line)
-		cl.Props = allProps(ct)
-		e.addSideObl(st, cl, "at-"+sanitize(pos), g)
+		if strings.HasPrefix(rq.Name, "requires@") {
+			cl.Name = fmt.Sprintf("%s.requires%d", ct.Short, ri+1)
+		}
+		if len(rq.Props) == 0 {
+			cl.Props = allProps(ct)
+		}
+		caller := e.curFn
+		if cct := e.contracts.lookup(e.curFn); cct != nil {
+			caller = cct.Short
+		}
+		e.addSideObl(st, cl, "in-"+sanitize(caller), g)
 	}
 	if w := ct.Flags["writes"]; w != "" {
 		// heap locations the callee may assign (paths from its parameters): havocked
